@@ -138,8 +138,21 @@ def sample(t):
     return 1.5 if t == "float" else 2
 
 
-def overload_src(ps):
-    return "".join(f"function h({', '.join(f'{t} p{k}' for k, t in enumerate(s))}) -> int {{ return {i + 1}; }}\n" for i, s in enumerate(ps))
+def overload_src(ps, start=0):
+    return "".join(f"function h({', '.join(f'{t} p{k}' for k, t in enumerate(s))}) -> int {{ return {i + 1}; }}\n" for i, s in enumerate(ps, start))
+
+
+PLACEMENTS = ("callers-last", "callers-first", "callers-after-first-overload")
+
+
+def place(ps, callers, placement):
+    """Where the calling functions stand relative to the overloads they call (all functions of a module are declared before any
+    body is typed, so the position must not matter)."""
+    if placement == "callers-last":
+        return overload_src(ps) + callers
+    if placement == "callers-first":
+        return callers + overload_src(ps)
+    return overload_src(ps[:1]) + callers + overload_src(ps[1:], 1)
 
 
 def caller_src(j, args):
@@ -176,62 +189,63 @@ def w_e2e(job):
         if perm[0] != first:
             continue
         ps = [sigs[i] for i in perm]
-        head = overload_src(ps)
         acc = [(j, a, oracle(ps, a)) for j, a in enumerate(sigs)]
         good = [(j, a, w) for j, a, w in acc if w is not None]
         bad = [(j, a) for j, a, w in acc if w is None]
-        n += len(acc)
-        nontriv += len(acc)
-        # accepted call sites packed into one module (bisected on failure)
-        def run_pack(items):
-            src = head + "".join(caller_src(j, a) for j, a, _ in items)
-            res = compile_src(src)
-            if not res.ok:
-                if len(items) > 1:
-                    h = len(items) // 2
-                    run_pack(items[:h])
-                    run_pack(items[h:])
-                else:
-                    j, a, w = items[0]
-                    note("reject")
-                    fail("rejected-with-unique-best|" + _sub(ps, a), ps, a, src, f"accepted, resolves to h({', '.join(ps[w])})", res.cls() + " " + (res.msg or ""))
-                return
-            try:
-                program = link(res.module)
-            except BaseException as e:
-                program = None
-            for j, a, w in items:
-                note("ok")
-                calls = [i for i in res.module.Functions[f"c{j}"].Instructions if isinstance(i, IR.CallInstruction)]
-                if len(calls) != 1 or calls[0].Function != mangled(ps[w]):
-                    fail("wrong-candidate-static|" + _sub(ps, a), ps, a, head + caller_src(j, a), f"call to {mangled(ps[w])}",
-                         f"call instruction names {[c.Function for c in calls]}")
-                    continue
-                if program is None:
-                    continue
+        for placement in (PLACEMENTS if len(ps) > 1 else PLACEMENTS[:2]):
+            tag = "" if placement == "callers-last" else "|" + placement
+            n += len(acc)
+            nontriv += len(acc)
+            # accepted call sites packed into one module (bisected on failure)
+            def run_pack(items):
+                src = place(ps, "".join(caller_src(j, a) for j, a, _ in items), placement)
+                res = compile_src(src)
+                if not res.ok:
+                    if len(items) > 1:
+                        h = len(items) // 2
+                        run_pack(items[:h])
+                        run_pack(items[h:])
+                    else:
+                        j, a, w = items[0]
+                        note("reject")
+                        fail("rejected-with-unique-best|" + _sub(ps, a) + tag, ps, a, src, f"accepted, resolves to h({', '.join(ps[w])})", res.cls() + " " + (res.msg or ""))
+                    return
                 try:
-                    with pool.time_limit(2.0):
-                        v = new_vm(program).Invoke(f"c{j}", **{f"x{k}": sample(t) for k, t in enumerate(a)})
+                    program = link(res.module)
                 except BaseException as e:
-                    note("dynamic-observation-unavailable:" + type(e).__name__)
-                    continue
-                if v != w + 1:
-                    fail("wrong-candidate-runs|" + _sub(ps, a), ps, a, head + caller_src(j, a), f"returns {w + 1}", f"returns {v!r}")
-
-        if good:
-            run_pack(good)
-        for j, a in bad:
-            src = head + caller_src(j, a)
-            res = compile_src(src)
-            note(res.status)
-            if res.status in ("ok", "internal"):
-                viable = [s for s in ps if len(s) == len(a) and all(convertible(x, p) for x, p in zip(a, s))]
-                cls = "ambiguity-not-detected" if viable else "resolved-without-viable-candidate|" + _sub(ps, a)
-                got = ""
-                if res.ok:
+                    program = None
+                for j, a, w in items:
+                    note("ok")
                     calls = [i for i in res.module.Functions[f"c{j}"].Instructions if isinstance(i, IR.CallInstruction)]
-                    got = f" (calls {[c.Function for c in calls]})"
-                fail(cls, ps, a, src, "rejected", res.cls() + got)
+                    if len(calls) != 1 or calls[0].Function != mangled(ps[w]):
+                        fail("wrong-candidate-static|" + _sub(ps, a) + tag, ps, a, place(ps, caller_src(j, a), placement), f"call to {mangled(ps[w])}",
+                             f"call instruction names {[c.Function for c in calls]}")
+                        continue
+                    if program is None:
+                        continue
+                    try:
+                        with pool.time_limit(2.0):
+                            v = new_vm(program).Invoke(f"c{j}", **{f"x{k}": sample(t) for k, t in enumerate(a)})
+                    except BaseException as e:
+                        note("dynamic-observation-unavailable:" + type(e).__name__)
+                        continue
+                    if v != w + 1:
+                        fail("wrong-candidate-runs|" + _sub(ps, a) + tag, ps, a, place(ps, caller_src(j, a), placement), f"returns {w + 1}", f"returns {v!r}")
+
+            if good:
+                run_pack(good)
+            for j, a in bad:
+                src = place(ps, caller_src(j, a), placement)
+                res = compile_src(src)
+                note(res.status)
+                if res.status in ("ok", "internal"):
+                    viable = [s for s in ps if len(s) == len(a) and all(convertible(x, p) for x, p in zip(a, s))]
+                    cls = ("ambiguity-not-detected" if viable else "resolved-without-viable-candidate|" + _sub(ps, a)) + tag
+                    got = ""
+                    if res.ok:
+                        calls = [i for i in res.module.Functions[f"c{j}"].Instructions if isinstance(i, IR.CallInstruction)]
+                        got = f" (calls {[c.Function for c in calls]})"
+                    fail(cls, ps, a, src, "rejected", res.cls() + got)
     return n, nontriv, fails, counts, outcomes
 
 
